@@ -14,6 +14,9 @@ func init() {
 	scenarios["unflushed-ack"] = scenUnflushedAck
 	scenarios["stale-candidate"] = scenStaleCandidate
 	scenarios["stale-suffix-install"] = scenStaleSuffixInstall
+	scenarios["double-failed-leadership"] = scenDoubleFailedLeadership
+	scenarios["snap-config-race"] = scenSnapConfigRace
+	scenarios["double-install"] = scenDoubleInstall
 }
 
 // waitFor polls cond every hb/4 for at most n heartbeat timeouts.
@@ -222,5 +225,218 @@ func scenStaleSuffixInstall(e *engineA) error {
 	e.isolate(l, false)
 	e.startClients(2, map[string]int{"update": 3, "read": 1})
 	e.sleepHB(6, 12)
+	return e.finish()
+}
+
+// scenDoubleFailedLeadership (C04): two consecutive leaderships that fail
+// before replicating anything leave two different uncommitted entries at the
+// same index - G's of term t and W's of a later term t' - and then G, whose
+// entry is the older one, is elected again (by O, whose log is shorter) and
+// replicates to W.
+func scenDoubleFailedLeadership(e *engineA) error {
+	e.prof = profiles["general"]
+	if err := e.boot(3); err != nil {
+		return err
+	}
+	e.cl.startInfoSampler(e.hb() / 2)
+	g := e.cl.leader()
+	if g == nil {
+		return fmt.Errorf("no leader")
+	}
+	for i := 0; i < 3; i++ {
+		e.cl.fsmOp(1, g, "update")
+	}
+	e.sleepHB(1, 2)
+	// the next node that becomes leader is cut off before it can send anything
+	var w *Node
+	var wset int32
+	e.rc.onNodeEvent = func(dir string, r *ev.Rec) {
+		if r.K == "state" && r.St != nil && r.St.State == "L" && dir != g.dir && atomic.CompareAndSwapInt32(&wset, 0, 1) {
+			for _, n := range e.cl.liveNodes() {
+				if n.dir == dir {
+					w = n
+				}
+			}
+			if w != nil {
+				for _, m := range e.cl.liveNodes() {
+					if m != w {
+						e.net.Cut(w.label, m.label, true)
+						e.net.Cut(m.label, w.label, true)
+					}
+				}
+			}
+		}
+	}
+	e.rc.emit(&ev.Rec{K: "fault", Op: "isolate-leader-g", Nid: g.nid})
+	e.isolate(g, true)
+	for i := 0; i < 1+e.rng.Intn(3); i++ {
+		go e.cl.fsmOp(2, g, "update") // entries only g ever sees
+	}
+	if !e.waitFor(100, func() bool { return atomic.LoadInt32(&wset) == 1 }) {
+		e.rc.onNodeEvent = nil
+		return fmt.Errorf("no second leader")
+	}
+	e.rc.onNodeEvent = nil
+	if w == nil {
+		return fmt.Errorf("second leader not found")
+	}
+	e.rc.emit(&ev.Rec{K: "fault", Op: "second-leader-isolated-at-election", Nid: w.nid})
+	// entries only w ever sees (its no-op, maybe an update)
+	go e.cl.fsmOp(2, w, "update")
+	var o *Node
+	for _, n := range e.cl.liveNodes() {
+		if n != g && n != w {
+			o = n
+		}
+	}
+	// g and o can talk again; w stays away
+	e.sleepHB(2, 3)
+	e.rc.emit(&ev.Rec{K: "fault", Op: "heal-g-o", Nid: g.nid, ID: o.nid})
+	e.cutBoth(g, o, false)
+	if !e.waitFor(150, func() bool {
+		info, ok := g.info(false)
+		if ok && info.State == raft.Leader {
+			return true
+		}
+		info, ok = o.info(false)
+		return ok && info.State == raft.Leader
+	}) {
+		return fmt.Errorf("g/o elected no leader")
+	}
+	if l := e.cl.leader(); l != nil {
+		e.cl.fsmOp(1, l, "update")
+	}
+	e.rc.emit(&ev.Rec{K: "fault", Op: "heal-w", Nid: w.nid})
+	e.isolate(w, false)
+	e.startClients(2, map[string]int{"update": 3, "read": 1})
+	e.sleepHB(6, 10)
+	return e.finish()
+}
+
+// scenSnapConfigRace (C12): a snapshot is requested, then held at the start
+// of its goroutine (or before the state machine is asked) while a membership
+// change commits and is applied; then it is let go. The label must not name
+// a membership older than the configuration entry at or below its index.
+// Afterwards the node is compacted and restarted, and a wiped node is
+// brought in by installation.
+func scenSnapConfigRace(e *engineA) error {
+	e.prof = profiles["member"]
+	if err := e.boot(3); err != nil {
+		return err
+	}
+	e.cl.startInfoSampler(e.hb() / 2)
+	l := e.cl.leader()
+	if l == nil {
+		return fmt.Errorf("no leader")
+	}
+	for i := 0; i < 5; i++ {
+		e.cl.fsmOpPad(1, l, "update", 120)
+	}
+	target := l
+	if e.rng.Intn(2) == 0 {
+		target = e.others(l)[e.rng.Intn(2)]
+	}
+	point := "snap.start" // (holding fsm.beforeSnap would stall the state machine, and with it GetInfo and the raft goroutine)
+	e.rc.emit(&ev.Rec{K: "fault", Op: "hold-snapshot-at-" + point, Nid: target.nid})
+	hit := e.pc.hold(target.dir, point)
+	go e.cl.takeSnapshot(target, 0)
+	select {
+	case <-hit:
+	case <-time.After(100 * e.hb()):
+		e.pc.release(target.dir, point)
+		return fmt.Errorf("snapshot never reached %s", point)
+	}
+	// a membership change commits and is applied meanwhile
+	old, _ := target.info(false)
+	if _, err := e.cl.start(4, e.cl.dirOf(4)); err != nil {
+		return err
+	}
+	e.ids = append(e.ids, 4)
+	if err := e.cl.changeConfig(l, "add(4)", func(conf *raft.Config) error {
+		return conf.AddNonvoter(4, e.cl.addrOf(4), e.rng.Intn(2) == 0)
+	}); err != nil {
+		e.pc.release(target.dir, point)
+		return fmt.Errorf("changeConfig: %v", err)
+	}
+	for i := 0; i < 6+e.rng.Intn(10); i++ {
+		e.cl.fsmOpPad(1, l, "update", 100+e.rng.Intn(200))
+	}
+	e.waitFor(40, func() bool {
+		info, ok := target.info(false)
+		return ok && info.Configs.Committed.Index > old.Configs.Committed.Index && info.LastApplied >= info.Configs.Committed.Index
+	})
+	e.rc.emit(&ev.Rec{K: "fault", Op: "release-snapshot", Nid: target.nid})
+	e.pc.release(target.dir, point)
+	e.sleepHB(3, 5)
+	for i := 0; i < 6; i++ {
+		e.cl.fsmOpPad(1, l, "update", 150)
+	}
+	// restart from snapshot + suffix
+	e.rc.emit(&ev.Rec{K: "fault", Op: "restart", Nid: target.nid})
+	if _, err := e.cl.restart(target.nid); err != nil {
+		e.rc.emit(&ev.Rec{K: "restart-failed", Cid: e.cl.cid, Nid: target.nid, Err: err.Error()})
+	}
+	e.sleepHB(3, 5)
+	// installation on a wiped member
+	if nl := e.cl.waitLeader(60 * e.hb()); nl != nil {
+		var victim *Node
+		for _, n := range e.cl.liveNodes() {
+			if n != nl && n.nid != 4 {
+				victim = n
+			}
+		}
+		if victim != nil && e.rng.Intn(2) == 0 {
+			e.cl.takeSnapshot(nl, 0)
+			e.sleepHB(2, 3)
+		}
+	}
+	e.startClients(2, map[string]int{"update": 3, "read": 1})
+	e.sleepHB(4, 8)
+	return e.finish()
+}
+
+// scenDoubleInstall (C15 / C09): two followers fall behind a compaction and
+// are brought back at the same moment, so that two replication goroutines
+// open and send the snapshot concurrently.
+func scenDoubleInstall(e *engineA) error {
+	e.prof = profiles["snapshot"]
+	n := 4 + e.rng.Intn(2)
+	if err := e.boot(n); err != nil {
+		return err
+	}
+	e.cl.startInfoSampler(e.hb() / 2)
+	l := e.cl.leader()
+	if l == nil {
+		return fmt.Errorf("no leader")
+	}
+	for i := 0; i < 5; i++ {
+		e.cl.fsmOp(1, l, "update")
+	}
+	fs := e.others(l)
+	lag := fs[:2]
+	e.rc.emit(&ev.Rec{K: "fault", Op: "isolate-two-followers", Nid: lag[0].nid, ID: lag[1].nid})
+	for _, f := range lag {
+		e.isolate(f, true)
+	}
+	for i := 0; i < 30+e.rng.Intn(30); i++ {
+		if r := e.cl.fsmOpPad(1, l, "update", 100+e.rng.Intn(200)); !r.ok {
+			break
+		}
+	}
+	e.sleepHB(4, 5) // unreachable detected
+	e.cl.takeSnapshot(l, 0)
+	e.waitFor(30, func() bool {
+		info, ok := l.info(false)
+		return ok && info.FirstLogIndex > 6
+	})
+	e.rc.emit(&ev.Rec{K: "fault", Op: "heal-both-at-once"})
+	for _, f := range lag {
+		e.isolate(f, false)
+	}
+	e.startClients(3, map[string]int{"update": 4, "read": 1, "dirty": 1})
+	e.sleepHB(6, 10)
+	// and once more while a snapshot is being taken
+	go e.cl.takeSnapshot(l, 0)
+	e.sleepHB(2, 4)
 	return e.finish()
 }
